@@ -25,7 +25,7 @@ import time
 import typing as t
 
 VERIF = pathlib.Path(__file__).resolve().parent.parent
-LEAN = VERIF / "lean"
+LEAN = pathlib.Path(os.environ.get("VERIF_LEAN") or (VERIF / "lean"))  # VERIF_LEAN: scratch copy used when judging a mutated tree
 REPO = pathlib.Path(os.environ.get("VERIF_REPO", "/repo"))
 PY = "/venv/bin/python"
 
